@@ -31,6 +31,12 @@ type Obligation struct {
 	Watch   []string
 	Query   string
 	Clause  *Clause
+	// AssumeIdx: index (in Engine.assumes) of the assumption this obligation leaves behind for later ones
+	// (assume-after-assert), -1 if none. Drop: assumption indices left out when the query was built.
+	AssumeIdx int
+	Drop      map[int]bool
+	Unserved  bool   // solved only because later obligations assume it (check command)
+	Note      string
 }
 
 type callLabel struct {
@@ -92,6 +98,8 @@ type Engine struct {
 	curLockOwner *lockOwner
 	lockChecks bool
 	unclassified map[string]bool
+	idSeen       map[string]int
+	ownedVals    map[string]*ownedRec // references loaded from `owns` fields (by term) -> protecting lock
 	inQuant   int
 	bodyOrd   map[string]int
 	noOutside bool
@@ -102,7 +110,7 @@ func NewEngine(p *Program, fn *ssa.Function, fc *FuncContract) *Engine {
 	return &Engine{P: p, Fn: fn, FC: fc, FuncID: p.FuncIDOf(fn), declared: map[string]bool{}, reified: map[int]bool{},
 		labels: map[string]*callLabel{}, callOrd: map[string]int{}, kindOrd: map[string]int{}, notes: map[string]bool{},
 		used: map[string]bool{}, strlits: map[string]string{}, siteType: map[int]types.Type{}, params: map[string]Val{},
-		ghost: map[string]Term{}, safetyOn: true, loopPre: map[string]*State{}, autoInvs: map[string][]autoChk{}, rangeOf: map[*ssa.Range]Val{}, strSeen: map[string]bool{}, unclassified: map[string]bool{}, bodyOrd: map[string]int{}, needs: map[int][]string{}, siteDeps: map[string][]int{}, closedDone: map[string]bool{}, compWM: map[string]Term{}}
+		ghost: map[string]Term{}, safetyOn: true, lockChecks: true, loopPre: map[string]*State{}, autoInvs: map[string][]autoChk{}, rangeOf: map[*ssa.Range]Val{}, strSeen: map[string]bool{}, unclassified: map[string]bool{}, bodyOrd: map[string]int{}, needs: map[int][]string{}, siteDeps: map[string][]int{}, closedDone: map[string]bool{}, compWM: map[string]Term{}}
 }
 
 func (e *Engine) note(format string, args ...interface{}) {
@@ -289,19 +297,35 @@ func (e *Engine) oblige(kind, name, desc string, reach, cond Term, clause *Claus
 	if !e.safetyOn && clause == nil {
 		return nil
 	}
+	// obligation ids are unique within a function: a second obligation of the same name (second back edge of a
+	// loop, second path through an inlined callee) gets an ordinal
+	if e.idSeen == nil {
+		e.idSeen = map[string]int{}
+	}
+	e.idSeen[name]++
+	if k := e.idSeen[name]; k > 1 {
+		name = fmt.Sprintf("%s~%d", name, k)
+	}
 	if cond.S == "true" || reach.S == "false" {
 		// trivially discharged; still counted so that evidence reports it
 		o := &Obligation{ID: e.FuncID + "#" + name, Func: e.FuncID, Kind: kind, Desc: desc, Pos: e.posString(token.NoPos),
-			Reach: reach, Cond: cond, NAssume: len(e.assumes), Expect: "unsat", Clause: clause}
+			Reach: reach, Cond: cond, NAssume: len(e.assumes), Expect: "unsat", Clause: clause, AssumeIdx: -1}
 		o.Result = SolveResult{Status: "unsat", Solver: "trivial"}
 		e.obls = append(e.obls, o)
 		return o
 	}
 	o := &Obligation{ID: e.FuncID + "#" + name, Func: e.FuncID, Kind: kind, Desc: desc, Pos: e.posString(token.NoPos),
-		Reach: reach, Cond: cond, NAssume: len(e.assumes), Expect: "unsat", Clause: clause}
+		Reach: reach, Cond: cond, NAssume: len(e.assumes), Expect: "unsat", Clause: clause, AssumeIdx: -1}
 	e.obls = append(e.obls, o)
-	// assume-after-assert
-	e.assume(reach, cond)
+	// assume-after-assert (not for conditions that are plainly false: rule violations such as a write to an
+	// immutable field must not make the rest of the function vacuous)
+	if cond.S != "false" {
+		n := len(e.assumes)
+		e.assume(reach, cond)
+		if len(e.assumes) == n+1 {
+			o.AssumeIdx = n
+		}
+	}
 	return o
 }
 
@@ -318,7 +342,18 @@ func (e *Engine) safety(kind, what string, reach, cond Term) {
 // BuildQuery renders the SMT-LIB text of an obligation. With groundOnly, quantified assumptions are
 // dropped (used only to retry cover queries that time out: fewer constraints can only make "sat" easier,
 // so an "unsat" answer still proves the path inconsistent).
-func (e *Engine) BuildQuery(o *Obligation) string { return e.buildQuery(o, false) }
+func (e *Engine) BuildQuery(o *Obligation) string {
+	if len(o.Drop) > 0 {
+		only := map[int]bool{}
+		for i := 0; i < o.NAssume; i++ {
+			if !o.Drop[i] {
+				only[i] = true
+			}
+		}
+		return e.buildQueryWith(o, false, only)
+	}
+	return e.buildQuery(o, false)
+}
 
 // sliceAssumptions: indices of the assumptions in the cone of influence of the obligation (connected to it
 // through shared declared symbols). Dropping assumptions can only make a proof harder, never unsound; the
